@@ -83,7 +83,14 @@ where
         schemars::schema_for!(M)
     }
     fn response_schemas(&self) -> Option<Result<BTreeMap<String, RootSchema>, String>> {
-        self.schemas.map(|f| f())
+        // a panic inside the generated `response_schemas_impl` means the table is not produced:
+        // reported as an error of the table, not as a harness failure
+        self.schemas.map(|f| {
+            std::panic::catch_unwind(f).unwrap_or_else(|p| {
+                let msg = p.downcast_ref::<String>().cloned().or_else(|| p.downcast_ref::<&str>().map(|s| s.to_string())).unwrap_or_else(|| "<panic>".into());
+                Err(format!("panicked: {msg}"))
+            })
+        })
     }
     fn type_name(&self) -> &'static str {
         std::any::type_name::<M>()
